@@ -191,6 +191,13 @@ def derived_item(out, item, rep, tmpdir):
         text = f.read()
     derived = derive_pdb(text, item["variant"], random.Random(item["gen_seed"]))
     path = os.path.join(tmpdir, "derived-%s.pdb" % item["variant"])
+    if item.get("as_cif"):
+        # the same derived structure as mmCIF (converted with the package's own second-generation reader/writer),
+        # so that the mmCIF branch of the first-generation reader meets the feature too
+        from rnapolis import parser_v2
+
+        derived = parser_v2.write_cif(parser_v2.parse_pdb_atoms(derived))
+        path = path[:-4] + ".cif"
     with open(path, "w") as f:
         f.write(derived)
     emit(out, item["id"], "derived_input", rep, derived, False)
